@@ -1,6 +1,7 @@
 """Generators of kojen models (transition tables, event / protocol interfaces), user text and
 output-directory spellings, and runners for the real generators that capture the freshly
 expanded code model right before the preservation pass."""
+import contextlib
 import copy
 import os
 import re
@@ -272,9 +273,15 @@ BLOB = os.path.join(REPO, "kojen", "test", "blob.xml")
 
 
 def rand_uml_model(r):
-    return dict(kind="uml", backend=r.choice(["uml", "umlcs"]), project=BLOB,
-                diagram=r.choice(["TestClassDiagram", "ProtocolStack"]), ns_folders=r.choice([False, True]),
-                dclspc=r.choice(["", "MY_EXPORT"]))
+    m = dict(kind="uml", backend=r.choice(["uml", "umlcs"]), project=BLOB,
+             diagram=r.choice(["TestClassDiagram", "ProtocolStack"]), ns_folders=r.choice([False, True]),
+             dclspc=r.choice(["", "MY_EXPORT"]))
+    if r.random() < 0.6:
+        # a synthesised class diagram in place of what the SQLite extraction delivers (see umlsynth)
+        import umlsynth
+        m["synth"] = umlsynth.rand_spec(r)
+        m["diagram"] = m["synth"]["diagram"]
+    return m
 
 
 def rand_model(r, kinds=("sm", "sm", "sm", "proto", "uml"), big=False):
@@ -346,8 +353,10 @@ class Runner:
                 ret = G.Protocol(outdir, itf, model["ns"], model["name"], "", "auth", "grp", "brief", model.get("templatedir", ""), "", copy_other)
             elif model["kind"] == "uml":
                 fn = G.UML if model["backend"] == "uml" else G.UML_CSHARP
-                ret = fn(outdir, model["project"], model["diagram"], model.get("dclspc", ""), "auth", "grp", "brief",
-                         model.get("ns_folders", False), "")
+                import umlsynth
+                with (umlsynth.installed(model["synth"]) if model.get("synth") else contextlib.nullcontext()):
+                    ret = fn(outdir, model["project"], model["diagram"], model.get("dclspc", ""), "auth", "grp", "brief",
+                             model.get("ns_folders", False), "")
             else:
                 raise ValueError(model["kind"])
         cap = self.captured[-1] if len(self.captured) == 1 else None
@@ -594,6 +603,10 @@ def mutate_proto(r, m):
 
 def mutate_uml(r, m):
     m = copy.deepcopy(m)
+    if m.get("synth") and r.random() < 0.8:
+        import umlsynth
+        m["synth"], what = umlsynth.mutate_spec(r, m["synth"])
+        return m, what
     m["dclspc"] = r.choice(["", "MY_EXPORT", "OTHER_API"])
     return m, "change-export-macro"
 
